@@ -39,16 +39,19 @@ def strategy(draw):
     n = draw(st.integers(8, 400))
     fs = draw(gen.choice([20, 40, 50, 75, 100, 128, 200, 250, 500])) if fmt != "peer" else None
     order = list(draw(st.permutations([0, 1, 2])))
+    # the three kinds of case are drawn jointly (independent draws of "no explicit orientation" and "well-formed file" left the
+    # plain combination - orientation taken from the file's own metadata - at zero cases in some runs)
+    mode = draw(gen.choice(["plain", "explicit", "plain", "negative", "plain", "explicit", "negative"]))
     case = dict(format=fmt, n=n, fs=fs, order=order, seed=draw(gen.seeds32), prefix=draw(gen.choice(PREFIX)),
-                dfn=draw(st.one_of(st.none(), st.none(), gen.floats(-720, 720), st.sampled_from([0.0, 90.0, 400.0]))),
-                negative=draw(gen.choice([None, "duplicate", None, "count-more", None, "missing", "count-fewer", None, "garbage", None])))
+                dfn=(draw(st.one_of(gen.floats(-720, 720), st.sampled_from([0.0, 90.0, 400.0]))) if (mode == "explicit" or (mode == "negative" and draw(st.booleans()))) else None),
+                negative=(draw(gen.choice(["duplicate", "count-more", "missing", "count-fewer", "garbage"])) if mode == "negative" else None))
     if fmt in ("mseed1", "mseed3"):
         case["dtype"] = draw(gen.choice(["int32", "float32", "float64"]))
     if fmt == "sac":
         case["byteorder"] = draw(st.sampled_from(["<", ">"]))
     if fmt == "saf":
         case["assign"] = list(draw(st.permutations(["V", "N", "E"])))      # CH0, CH1, CH2
-        case["north_rot"] = draw(st.one_of(st.just(0), st.integers(0, 359)))
+        case["north_rot"] = draw(st.one_of(st.just(0), st.integers(1, 359), st.integers(1, 359)))
         case["crlf"] = draw(st.booleans())
         # the format allows '#' comment lines and any keyword order in the header: field notes of 0-150 lines
         case["saf_comments"] = dict(n=draw(st.sampled_from([0, 0, 2, 12, 60, 150])), at=draw(st.sampled_from(["top", "middle", "mixed"])),
@@ -322,6 +325,8 @@ def check_case(case):
     tmp = tempfile.mkdtemp(prefix="vf-c07-")
     fmt = case["format"]
     labels = [fmt] + (["big-2^%d-samples" % int(np.log2(case["n"]))] if case.get("big") else [])
+    if fmt in ("saf", "peer") and case["dfn"] is None and case["negative"] is None:
+        labels.append(f"{fmt}:orientation-from-file")
     try:
         neg = case["negative"]
         if neg == "garbage":
